@@ -745,5 +745,6 @@ def run(p, rep, tier):
 
     rep.rule("C06.R5", "no hidden state survives a lookup: no mutable default arguments", "inventory", floor=50)
     c06.r5(p, rep)
-    c10.r1(p, rep)
+    lockinfo = c10.r1(p, rep)
+    c10.r2(p, rep, lockinfo)  # a lookup that fails must leave the committed registry as it was (copy-on-write snapshots)
     rep.info["undecided"] = "behaviour over all registry populations, registration orders and import histories"
